@@ -123,6 +123,14 @@ def static_part(ctx):
                              "unsafe_at_default": [k for k, _, _ in unsafe], "typed": tab.get("typed"),
                              "type_note": tab.get("type_note"), "packages": tab.get("packages"),
                              "files": sorted({s["file"] for s in tab["sites"]})}
+    ctx.cov["gates"] = tab.get("gates")
+    for g in tab.get("gates") or []:
+        ctx.count(("gate", g["where"]), nontrivial=True, kind="site/gate")
+        if not g["ok"]:
+            ctx.broken("gate", "%s decides whether a client address is printed with `%s`: %s (the station's rule is "
+                       "strconv.ParseBool(os.Getenv(\"LOG_CLIENT_IP\")) accepted as true, false on error)" % (g["where"], g["expr"][:200], g["why"]))
+    if not any(g["where"].startswith("cmd/application") for g in tab.get("gates") or []):
+        ctx.broken("gate", "cmd/application no longer sets logClientIP from LOG_CLIENT_IP in a way the walker recognises")
     if not tab.get("typed"):
         ctx.broken("walker", "the walker could not type-check the station's packages and fell back to names: %s" % tab.get("type_note"))
     elif tab.get("type_note"):
@@ -192,6 +200,20 @@ def shapes(ctx):
 
 
 # fixed-width components: no address is a textual prefix of another one
+UNSET = "\x00unset"
+ENV_VALUES = [UNSET, "", "false", "FALSE", "False", "0", "f", "F", "no", "off", "n", "disabled", "none", "false ", " false", "false\r",
+              "\"false\"", "garbage", "2", "-1", "yes", "on", "enabled", "tRuE", "true ", "\"true\"", "true", "1", "t", "T", "TRUE", "True"]
+GO_TRUE = {"1", "t", "T", "TRUE", "true", "True"}
+GO_FALSE = {"0", "f", "F", "FALSE", "false", "False"}
+
+
+def env_class(v):
+    """class of a LOG_CLIENT_IP value w.r.t. strconv.ParseBool: 0 unset/empty, 1 true, 2 false, 3 other"""
+    if v == UNSET or v == "":
+        return 0
+    return 1 if v in GO_TRUE else 2 if v in GO_FALSE else 3
+
+
 CLIENTS = {"v4": lambda i: "198.18.%d.%d" % (100 + (i // 150) % 150, 100 + i % 150),
            "v6": lambda i: "2001:db8:%x::c1:%x" % (0x100 + (i >> 8), 0x100 + (i & 255)),
            "v4mapped": lambda i: "::ffff:198.19.%d.%d" % (100 + (i // 150) % 150, 100 + i % 150)}
@@ -209,7 +231,7 @@ def gen_cases(ctx):
         fam = kind or rng.choice(["v4", "v6", "v4mapped"])
         c = {"scenario": scenario, "client": CLIENTS[fam](i), "port": 20000 + i % 40000, "addr_kind": "tcp", "reads": [],
              "err_at": {}, "geo": {}, "wrap": [], "wrap_err": None, "dial": "ok", "proxy_hdr": False, "log_ip": False,
-             "level": "", "hold": False, "ct_mode": "", "geo_after": 0}
+             "level": "", "hold": False, "ct_mode": "", "geo_after": 0, "log_env": None}
         c.update(kw)
         if at:
             c["err_at"] = dict(c["err_at"])
@@ -275,6 +297,13 @@ def gen_cases(ctx):
         add("ct", None, "", leaf("text"), kind=fam, ct_mode="relay", reads=data, log_ip=False)
         # the real DTLS transport (stand-in DNAT): the dial to the distinctive client address fails / times out
         add("dtls_real", None, "", leaf("text"), kind=fam)
+    # the gate: the address-printing sites under every kind of LOG_CLIENT_IP value.  "Disabled" is every value the
+    # station itself (cmd/application/main.go: strconv.ParseBool, false on error) does not accept as true.
+    for v in ENV_VALUES:
+        for fam in (("v4", "v6") if quick else ("v4", "v6", "v4mapped")):
+            add("ingest_blocklisted", None, "", leaf("text"), kind=fam if fam != "v4mapped" else "v4", log_env=v, _gate="ingest")
+            add("noreg", None, "read:0", op(sysx(leaf("errno:104"))), kind=fam, log_env=v, _gate="prefix")
+            add("found", None, "read:2", op(sysx(leaf("errno:104"))), kind=fam, reads=data, wrap=["found"], log_env=v, _gate="summary")
     # transport error path (Warn level; sleeps until the classification deadline)
     for e in ([op(sysx(leaf("errno:101"))), wrap(leaf("textaddr"))] if quick else rng.sample(sh, 12)):
         add("wraperr", None, "", e, reads=data[:1], wrap=["err"], wrap_err=e, level="warn")
@@ -416,6 +445,21 @@ def run(ctx):
             ctx.broken("driver", "scenario %s did not finish in 20 s" % c["scenario"], slim)
             continue
         leaked = [f for f in r["forms"] if f in alltext]
+        if c.get("log_env") is not None:
+            v = c["log_env"]
+            enabled = v in GO_TRUE
+            ctx.cov["histogram"]["gate/%s/%s" % (c.get("_gate"), "enabled" if enabled else "disabled")] = \
+                ctx.cov["histogram"].get("gate/%s/%s" % (c.get("_gate"), "enabled" if enabled else "disabled"), 0) + 1
+            if not (c.get("_gate") == "summary" and enabled):
+                # the tunnel summary never prints the client address, whatever the setting: only "absent when disabled" applies
+                terms.append("LGate (%s, %s)" % (gN(env_class(v)), gbool(bool(leaked))))
+                tcases.append((c, r))
+            if leaked and not enabled:
+                lines = [l for l in all_lines if any(f in l for f in leaked)]
+                key = (leak_key(tab, lines[0]) if lines else None) or "leak:unattributed:%s" % c["scenario"]
+                ctx.fail("gate:" + key, "client address %s appears in the log with LOG_CLIENT_IP=%r, a value the station (strconv.ParseBool, "
+                         "false on error) treats as logging disabled: %s" % (c["client"], v if v != UNSET else "<unset>", lines[0][:300] if lines else "?"), slim)
+            continue
         if c["log_ip"]:
             if leaked:
                 controls_ok += 1
@@ -432,19 +476,24 @@ def run(ctx):
                      slim)
         if c.get("_point") and shape is not None:
             oc = observed_code(c, r["out"])
-            terms.append("(%s, %s, %s, %s)" % (c["_point"], g_shape(shape), gN(oc), gbool(bool(leaked))))
+            terms.append("LErr (%s, %s, %s, %s)" % (c["_point"], g_shape(shape), gN(oc), gbool(bool(leaked))))
             tcases.append((c, r))
     ctx.cov["positive_controls"] = controls_ok
     ctx.sample({"case": {k: v for k, v in cases[3].items() if not k.startswith("_")}, "observed": res[3]["out"][-400:]})
     ctx.sample({"case": {k: v for k, v in cases[40].items() if not k.startswith("_")}, "observed": res[40]["out"][-400:]})
     ctx.sample({"statistics_output": res[-1]["out"][-600:]})
     ctx.require_kinds(["noreg/read", "noreg/setdeadline", "notransport/read", "readerr/read", "found/setdeadline", "found/read",
-                       "found/write", "found/close", "geo/-", "ingest_geo/-", "ingest_blocklisted/-", "wraperr/-", "ct/read", "ct/-", "dtls_real/-",
+                       "found/write", "found/close", "geo/-", "ingest_geo/-", "ingest_blocklisted/-", "wraperr/-", "ct/read", "ct/-", "dtls_real/-", "gate/ingest/disabled", "gate/ingest/enabled", "gate/prefix/disabled",
+                       "gate/prefix/enabled", "gate/summary/disabled", "site/gate",
                        "family/v4", "family/v6", "family/v4mapped", "site/Error", "site/Info", "site/Print", "site/Debug", "site/Warn"])
     mm = ctx.coq_mismatches("log", HEADER, terms, "chk", shard=500, need_vo=["C17/Run.vo"])
     if mm:
         ctx.cov["mismatches"] += len(mm)
         c, r = tcases[mm[0]]
-        ctx.broken("correspondence", "model C17 (sanitiser) and the implementation disagree on %d case(s); first: %s at %s/%s, shape %s, observed code %s"
-                   % (len(mm), c["_point"], c["scenario"], c["_at"], shape_name(c["_shape"]), observed_code(c, r["out"])),
+        if c.get("log_env") is not None:
+            what = "the gate: with LOG_CLIENT_IP=%r the %s site %s the client address, the station's rule says the opposite" % (
+                c["log_env"] if c["log_env"] != UNSET else "<unset>", c.get("_gate"), "printed" if any(f in alltext for f in r["forms"]) else "did not print")
+        else:
+            what = "%s at %s/%s, shape %s, observed code %s" % (c["_point"], c["scenario"], c["_at"], shape_name(c["_shape"]), observed_code(c, r["out"]))
+        ctx.broken("correspondence", "model C17 and the implementation disagree on %d case(s); first: %s" % (len(mm), what),
                    {"case": {k: v for k, v in c.items() if not k.startswith("_")}, "observed": r["out"][-600:]})
